@@ -116,8 +116,8 @@ pub fn k19_1_seqgroup<S: Src, const STEPS: usize>(s: &mut S, fifo: bool) {
                 if overtook {
                     s.tag("fetch-completions-out-of-order");
                 }
-                s.check(id != last_id, "sequence id issued twice");
-                s.check(id > last_id, "sequence id goes backwards");
+                vcheck!(s, id != last_id, "sequence id issued twice");
+                vcheck!(s, id > last_id, "sequence id goes backwards");
             }
             last_id = id;
             have_last = true;
@@ -180,8 +180,8 @@ pub fn k19_3_simple_sequence<S: Src, const STEPS: usize>(s: &mut S) {
                 tlog_val[n] = t;
             }
             if have_last {
-                s.check(id != last_id, "history id issued twice");
-                s.check(id > last_id, "history id goes backwards");
+                vcheck!(s, id != last_id, "history id issued twice");
+                vcheck!(s, id > last_id, "history id goes backwards");
             }
             last_id = id;
             have_last = true;
@@ -242,14 +242,14 @@ pub fn k19_4_sections<S: Src>(s: &mut S) {
     s.assume(n <= 1_000_000);
     let (lo, hi) = q.next_section(n).unwrap();
     let b = q.next_id();
-    s.check(a > start, "first id after the initial last id");
+    vcheck!(s, a > start, "first id after the initial last id");
     if n > 0 {
-        s.check(lo > a && hi >= lo && hi - lo + 1 == n, "section follows the issued id and has the requested size");
-        s.check(b > hi, "id after a section lies beyond it");
+        vcheck!(s, lo > a && hi >= lo && hi - lo + 1 == n, "section follows the issued id and has the requested size");
+        vcheck!(s, b > hi, "id after a section lies beyond it");
     } else {
-        s.check(b > a, "ids increase");
+        vcheck!(s, b > a, "ids increase");
     }
-    s.check(q.get_end_id() >= b, "end id covers everything issued");
+    vcheck!(s, q.get_end_id() >= b, "end id covers everything issued");
 }
 
 #[cfg(kani)]
